@@ -337,7 +337,7 @@ func runC17(t *simrt.Tape, o Opts) Outcome {
 			}
 			return m
 		}
-		crypto := aead.NewAES256GCM()
+		crypto := &flakyAEAD{AEAD: aead.NewAES256GCM()}
 		// the AWS configuration handed to the v2 builder may already carry a region (AWS_REGION set,
 		// or a shared config): each regional client must still talk to its own region
 		cfgRegion := ""
@@ -413,6 +413,19 @@ func runC17(t *simrt.Tape, o Opts) Outcome {
 			violate("build-failed", "cannot build plugin: %v", err)
 			return
 		}
+		// one long-lived plugin instance may do both (a service that wraps a new system key and later
+		// unwraps it): the regions' health at unwrap time is then set on the same nodes
+		sameInstance := !swept && (pair&1 == 1) == (pair&2 == 2) && t.Choose(3, "same-instance") == 1
+		if sameInstance {
+			unwrapper = wrapper
+		}
+		// the local encryption of the system key under the fresh data key can fail after the data key
+		// exists
+		aeadFails := !swept && t.Choose(8, "aead-fails") == 1
+		if aeadFails {
+			crypto.failEncrypt = true
+			st.Faults["aead.local-encrypt-fails"]++
+		}
 		sk := make([]byte, 32)
 		rnd.Fill(sk)
 		orig := append([]byte(nil), sk...)
@@ -426,6 +439,23 @@ func runC17(t *simrt.Tape, o Opts) Outcome {
 			}
 		}
 		desc := fmt.Sprintf("regions=%v preferred=%s wrap-failing=%04b unwrap-failing=%04b wrap=v%d unwrap=v%d mode=%s", regions, regions[pref], wm, um, 1+pair&1, 1+(pair>>1)&1, mode)
+		if aeadFails && canGenerate {
+			// the wrap must fail, and the data key it obtained must be wiped all the same
+			count(st.Oracle, "wrap-with-failing-local-encryption")
+			if err == nil {
+				violate("wrap-result", "%s: wrapping succeeded although the local encryption of the key failed", desc)
+				return
+			}
+			for _, h := range handed {
+				for _, b := range h {
+					if b != 0 {
+						violate("data-key-not-wiped", "%s: the plaintext data key obtained from the KMS is not wiped after EncryptKey failed at the local encryption step", desc)
+						return
+					}
+				}
+			}
+			return
+		}
 		if canGenerate != (err == nil) {
 			violate("wrap-result", "%s: wrapping returned err=%v although a data key %s be generated", desc, err, map[bool]string{true: "could", false: "could not"}[canGenerate])
 			return
@@ -496,6 +526,12 @@ func runC17(t *simrt.Tape, o Opts) Outcome {
 			return
 		}
 		// ---- unwrap
+		if sameInstance {
+			for r, nd := range wrapNodes {
+				un := unwrapNodes[r]
+				nd.failGen, nd.failEnc, nd.failDec, nd.wrongPlain, nd.lat = false, false, un.failDec, un.wrongPlain, un.lat
+			}
+		}
 		log = nil
 		handed = nil
 		count(st.Oracle, "unwrap")
@@ -544,4 +580,19 @@ func runC17(t *simrt.Tape, o Opts) Outcome {
 		}
 	}
 	return out
+}
+
+// flakyAEAD is the repository's AES-256-GCM whose Encrypt (the local encryption of the system key
+// under the fresh data key) can be made to fail once.
+type flakyAEAD struct {
+	appencryption.AEAD
+	failEncrypt bool
+}
+
+func (a *flakyAEAD) Encrypt(data, key []byte) ([]byte, error) {
+	if a.failEncrypt {
+		a.failEncrypt = false
+		return nil, errors.New("cipher: injected failure of the local encryption")
+	}
+	return a.AEAD.Encrypt(data, key)
 }
